@@ -72,6 +72,7 @@ func (v *IndexVamana) greedySearch(query []float32, k int, searchSize int, filte
 		 * we bypass duplicate check and add it straight to the visited set. */
 		visitedSet.AddAlreadyUnique(distElem)
 		searchSet.items[i].visited = true
+		verifSearchStep()
 		// ---------------------------
 		// Get the node and its neighbours
 		node, err := v.nodeStore.Get(distElem.Point.Id())
